@@ -8,6 +8,10 @@ from . import core, instrument, modelgen, ties
 from .census import Census
 
 
+def PROBE_GUARD():
+    return instrument.PROBING
+
+
 class BudgetExceeded(Exception):
     pass
 
@@ -89,6 +93,20 @@ class LineRun:
         if self.failed:
             raise CaseAbort()
 
+    def run_begin(self, env, t0, d):
+        # the state right after initialisation is an event boundary too (a zero-cycle source has
+        # already produced its first part by then)
+        if self.model is None or PROBE_GUARD():
+            return
+        self.prev_census = self.census
+        self.census = Census(self.model)
+        for m in self.monitors:
+            f = getattr(m, 'on_event', None)
+            if f is not None:
+                f(env, None)
+        if self.failed:
+            raise CaseAbort()
+
     def before_advance(self, env, t):
         for m in self.monitors:
             f = getattr(m, 'on_quiescent', None)
@@ -129,8 +147,11 @@ class LineRun:
             bus.attach(self)        # last: census + on_event fan-out
             self.census = Census(self.model)
             try:
-                for d in spec['horizon']:
-                    self.model.system.simulate(d, print_summary=False)
+                self.poke()
+                traces = spec.get('trace') or []
+                for k, d in enumerate(spec['horizon']):
+                    tr = bool(traces[k]) if k < len(traces) else False
+                    self.model.system.simulate(d, trace=tr, print_summary=False)
                     # the end of a run is a quiescent point too
                     self.before_advance(self.model.env, None)
                 for m in self.monitors:
@@ -152,6 +173,20 @@ class LineRun:
         if status in ('crash', 'budget') and not self.failed:
             self.judge_crash()
         return status
+
+    def poke(self):
+        """Pre-start perturbation: add_value before the first simulate is expected to raise (no
+        environment yet) and whatever it changed must be reset by initialisation."""
+        self.poked = []
+        for did in self.spec.get('poke', []):
+            dev = self.model.devs.get(did)
+            if dev is None:
+                continue
+            try:
+                dev.add_value('poke', 7.5)
+                self.poked.append((did, 'accepted'))
+            except Exception as e:
+                self.poked.append((did, type(e).__name__))
 
     def judge_crash(self):
         kind, msg, tb = self.crash
